@@ -102,7 +102,11 @@ def check(ck):
         if isinstance(test, ast.Compare) and len(test.ops) == 1 and isinstance(test.ops[0], ast.Eq):
             l, r = test.left, test.comparators[0]
             for (x, y) in ((l, r), (r, l)):
-                if isinstance(y, ast.Constant) and y.value == 200 and type(y.value) is int and own_status(node, x):
+                try:
+                    yv = prog.const("jsonrpc", y)
+                except AnalysisError:
+                    yv = None
+                if type(yv) is int and yv == 200 and own_status(node, x):
                     return True
         return False
     rets = [n for n in g.live_nodes() if n.kind == "return" and n.ast is not None and n.ast.value is not None]
@@ -207,9 +211,13 @@ def check(ck):
     # TransportError hands its four arguments to ProtocolError.__init__(url, errcode, errmsg, headers) in order
     fte = prog.func("jsonrpc", "TransportError.__init__")
     gte = cfg_of(fte)
-    bi = [(n, c) for n in gte.live_nodes() for c in node_calls(n) if dump(c.func) == "ProtocolError.__init__"]
-    okk = len(bi) == 1 and [prov.origin(gte, bi[0][0], a) for a in bi[0][1].args] == [("param", p_) for p_ in fte.params] and not bi[0][1].keywords \
-        and len(fte.params) == 5
+    bi = [(n, c) for n in gte.live_nodes() for c in node_calls(n)
+          if dump(c.func) in ("ProtocolError.__init__", "super().__init__", "super(TransportError, self).__init__")]
+    okk = False
+    if len(bi) == 1 and not bi[0][1].keywords and len(fte.params) == 5:
+        got = [prov.origin(gte, bi[0][0], a) for a in bi[0][1].args]
+        want = [("param", p_) for p_ in fte.params]
+        okk = got == (want if dump(bi[0][1].func) == "ProtocolError.__init__" else want[1:])
     ck.require(okk, "C19.4", "%s: ProtocolError.__init__(self, url, errcode, errmsg, msg)" % q.fn(fte), "all four arguments, in order",
                "TransportError does not initialise its base with (url, errcode, errmsg, msg): raising it for a non-200 reply fails (TypeError) or "
                "loses the URL / status", q.loc(fte, fte.node))
